@@ -324,6 +324,13 @@ func FromRepr(t *schemas.T, r *refval.V) (*refval.V, bool) {
 		if r.K != refval.Map {
 			return nil, false
 		}
+		for i := range r.Keys {
+			for j := 0; j < i; j++ {
+				if r.Keys[i] == r.Keys[j] {
+					return nil, false // repeated key
+				}
+			}
+		}
 		v := &refval.V{K: refval.Map, Keys: r.Keys}
 		for _, e := range r.L {
 			ev, ok := FromRepr(schemas.ByName(t.Elem), e)
@@ -429,4 +436,60 @@ func kindOf(v *refval.V) datamodel.Kind {
 		return datamodel.Kind_Link
 	}
 	return datamodel.Kind_Invalid
+}
+
+// ---- local mutations of a data-model tree (C09) ----
+
+// Mutate applies one local mutation at a position chosen by decision: drop / duplicate / rename /
+// swap / add a map entry, drop / add a list element, retype or null a scalar.
+func (g *G) Mutate(v *refval.V) *refval.V {
+	// descend or mutate here
+	if (v.K == refval.Map || v.K == refval.List) && len(v.L) > 0 && nd.Choose(g.name("descend"), 2) == 1 {
+		i := nd.Choose(g.name("child"), len(v.L))
+		c := *v
+		c.L = append([]*refval.V{}, v.L...)
+		c.L[i] = g.Mutate(v.L[i])
+		return &c
+	}
+	switch v.K {
+	case refval.Map:
+		c := &refval.V{K: refval.Map, Keys: append([]string{}, v.Keys...), L: append([]*refval.V{}, v.L...)}
+		op := nd.Choose(g.name("mapmut"), 5)
+		if len(c.L) == 0 {
+			op = 4
+		}
+		switch op {
+		case 0: // drop
+			i := nd.Choose(g.name("which"), len(c.L))
+			c.Keys = append(c.Keys[:i:i], c.Keys[i+1:]...)
+			c.L = append(c.L[:i:i], c.L[i+1:]...)
+		case 1: // duplicate
+			i := nd.Choose(g.name("which"), len(c.L))
+			c.Keys = append(c.Keys, c.Keys[i])
+			c.L = append(c.L, c.L[i])
+		case 2: // rename to an arbitrary key (the solver decides whether it collides)
+			i := nd.Choose(g.name("which"), len(c.L))
+			c.Keys[i] = nd.String(g.name("newkey"), len(c.Keys[i]))
+		case 3: // reorder
+			if len(c.L) > 1 {
+				c.Keys[0], c.Keys[1] = c.Keys[1], c.Keys[0]
+				c.L[0], c.L[1] = c.L[1], c.L[0]
+			}
+		case 4: // an extra entry
+			c.Keys = append(c.Keys, nd.String(g.name("extrakey"), 1))
+			c.L = append(c.L, refval.MkInt(nd.Int64(g.name("extra"))))
+		}
+		return c
+	case refval.List:
+		c := &refval.V{K: refval.List, L: append([]*refval.V{}, v.L...)}
+		if len(c.L) > 0 && nd.Choose(g.name("listmut"), 2) == 0 {
+			c.L = c.L[:len(c.L)-1]
+		} else {
+			c.L = append(c.L, []*refval.V{refval.MkNull(), refval.MkInt(7), refval.MkString("x")}[nd.Choose(g.name("extra"), 3)])
+		}
+		return c
+	}
+	// scalars: another kind, or null
+	alts := []*refval.V{refval.MkNull(), refval.MkInt(nd.Int64(g.name("ri"))), refval.MkString(nd.String(g.name("rs"), 1)), refval.MkBool(true), refval.MkMap(nil, nil), refval.MkList()}
+	return alts[nd.Choose(g.name("retype"), len(alts))]
 }
